@@ -279,6 +279,29 @@ pub fn run(ctx: &Ctx, rep: &mut Report) {
     for p in gen::ep_family(&mut rng, ctx.n(40_000, 1_000_000) as usize).iter() {
         check_position(p, &ev, &[0, 10], rep);
     }
+    // stalemate-like crowds whose only pseudo-legal move is an en-passant capture pinned along the rank
+    for p in gen::ep_rank_pin_family(&mut rng, ctx.n(6_000, 300_000) as usize).iter() {
+        check_position(p, &ev, &[0, 5], rep);
+        rep.count("ep_rank_pin_positions", 1);
+        if p.legal_moves().is_empty() && !p.in_check(p.wtm) {
+            rep.count("stalemates_with_an_illegal_en_passant_capture", 1);
+        }
+    }
+    // terminal positions of very little material (minor pieces and pawns only)
+    let want = ctx.n(12_000, 600_000);
+    let mut got = 0;
+    let mut tries = 0u64;
+    while got < want && tries < want * 400 && ctx.time_left() {
+        tries += 1;
+        if let Some(p) = gen::sparse_terminal(&mut rng) {
+            check_position(&p, &ev, &[0, 3, 12], rep);
+            got += 1;
+            if p.in_check(p.wtm) && p.men() <= 4 {
+                rep.count("checkmates_with_at_most_four_men", 1);
+            }
+        }
+    }
+    rep.count("sparse_terminal_positions", got);
     // corpus, play, sample
     for (i, p) in gen::corpus().iter().enumerate() {
         if ctx.mine(i as u64) {
